@@ -51,6 +51,14 @@ type unitCfg struct {
 	NativeRetries int `json:"native_retries"`
 }
 
+// harnessPath makes a harness spec absolute ("P:" source-patch specs keep their prefix).
+func harnessPath(h string) string {
+	if strings.HasPrefix(h, "P:") {
+		return "P:" + filepath.Join(verifRoot, h[2:])
+	}
+	return filepath.Join(verifRoot, h)
+}
+
 type checkCfg struct {
 	Title       string    `json:"title"`
 	Assumptions []string  `json:"assumptions"`
@@ -192,7 +200,7 @@ func runCheck(id, tier, filter string) int {
 	for _, u := range cc.Units {
 		var harness []string
 		for _, h := range u.Harness {
-			harness = append(harness, filepath.Join(verifRoot, h))
+			harness = append(harness, harnessPath(h))
 		}
 		var wanted []entryCfg
 		for _, e := range u.Entries {
@@ -580,7 +588,7 @@ func cmdReplay(path string) int {
 	}
 	var harness []string
 	for _, h := range rf.Harness {
-		harness = append(harness, filepath.Join(verifRoot, h))
+		harness = append(harness, harnessPath(h))
 	}
 	checks, _ := loadChecks()
 	var entries []string
